@@ -212,7 +212,10 @@ def cases(tier, seed):
                 key = (X.tree_size(t), X.tree_depth(t), cfg != "x")
                 for dt in ("r", "c"):
                     # the mixed-sign point 1 matters for real kinks/ranges; complex input uses it only for <= 1 node
-                    for g in (grid[size] if (dt == "r" or size <= 1) else grid[size][:1]):
+                    gs = tuple(grid[size] if (dt == "r" or size <= 1) else grid[size][:1])
+                    if size <= 1 and dt == "r" and label.startswith("full alphabet"):
+                        gs += (4, 5)      # extreme arguments (|x| ~ 36, |x| ~ 1e-6): branch thresholds of piecewise formulas
+                    for g in gs:
                         out.append((key + (dt != "r", g, k), dict(cfg=cfg, tree=t, dt=dt, g=g, seed=int(seed))))
     out.sort(key=lambda c: c[0])
     return [c for _, c in out]
